@@ -45,6 +45,25 @@ type Script struct {
 	Auth bool `json:"auth,omitempty"`
 	// TokenBody: what the token request is answered with (Auth only): "" = a proper token document
 	TokenBody string `json:"token_body,omitempty"`
+	// Challenge: which of the challenges the first 401 carries (Auth only)
+	Challenge int `json:"challenge,omitempty"`
+}
+
+// challenges: what the registry's first 401 says (Auth only); the first is the ordinary one, the others
+// are lists with empty elements, stray separators and unfinished parts - whatever the client makes of
+// them, it answers or gives up
+var challenges = []string{
+	`Bearer realm="http://registry.test/token",service="registry.test"`,
+	`Bearer realm="http://registry.test/token",,service="registry.test"`,
+	`Bearer realm="http://registry.test/token", ,`,
+	`Bearer ,realm="http://registry.test/token"`,
+	`Basic ,realm="x"`,
+	`Bearer realm="http://registry.test/token",service=`,
+	`Bearer realm="http://registry.test/token" service="registry.test"`,
+	`Bearer realm="http://registry.test/token",=,`,
+	`,,Bearer realm="http://registry.test/token"`,
+	`Bearer realm="http://registry.test/token\`,
+	`Bearer realm=http://registry.test/token,service=registry.test,`,
 }
 
 var sample = []byte("0123456789")
@@ -284,7 +303,7 @@ func run(s Script, v *vt.V) {
 	}
 	if s.Auth {
 		tr.resps = append([]Resp{
-			{Status: 401, Headers: map[string]string{"Www-Authenticate": `Bearer realm="http://registry.test/token",service="registry.test"`, "Content-Type": "application/json"}, Body: "error", CL: "exact", Fault: "none"},
+			{Status: 401, Headers: map[string]string{"Www-Authenticate": challenges[s.Challenge%len(challenges)], "Content-Type": "application/json"}, Body: "error", CL: "exact", Fault: "none"},
 			{Status: 200, Headers: map[string]string{"Content-Type": "application/json"}, Body: tokenBody, CL: "exact", Fault: "none"},
 		}, s.Resps...)
 		transport = ociauth.NewStdTransport(ociauth.StdTransportParams{Transport: tr})
@@ -436,7 +455,7 @@ func run(s Script, v *vt.V) {
 		return
 	}
 	faults := 0
-	consumed := len(s.Resps) - tr.left()
+	consumed := min(max(len(s.Resps)-tr.left(), 0), len(s.Resps)) // (a client that gives up on the challenge leaves more than the script's own answers)
 	for _, r := range s.Resps[:consumed] {
 		if r.Fault != "" && r.Fault != "none" {
 			faults++
@@ -531,6 +550,9 @@ func genScript(t *rapid.T) Script {
 	s.Op = rapid.SampledFrom(ops).Draw(t, "op")
 	s.Hint = rapid.SampledFrom([]int{0, 0, -1, 1, 2, 1 << 40}).Draw(t, "hint")
 	s.Auth = rapid.IntRange(0, 5).Draw(t, "auth") == 0
+	if s.Auth && rapid.Bool().Draw(t, "oddChallenge") {
+		s.Challenge = rapid.IntRange(1, len(challenges)-1).Draw(t, "challenge")
+	}
 	if s.Auth && rapid.Bool().Draw(t, "oddToken") {
 		s.TokenBody = rapid.SampledFrom([]string{"jsonnull", "jsonobj", "jsonarr", "tokennum", "tokenhuge", "empty", "truncated", "garbage", "huge"}).Draw(t, "tokenBody")
 	}
@@ -567,7 +589,7 @@ func genScript(t *rapid.T) Script {
 			vals := map[string][]string{
 				"Location":              {"", "::bad", "http://[::1", "relative/path", "//other.host/x", "/v2/foo/blobs/uploads/aWQ?x=1", "?", "/v2/foo/blobs/uploads/aWQ?", "\x7f"},
 				"Range":                 {"", "0-0", "5-4", "x-y", "0-99999999999999999999", "-", "1-5", "0", "0-9223372036854775807", "9-"},
-				"Content-Range":         {"", "bytes", "bytes 2-4", "bytes 2-4/x", "bytes 2-4/-1", "bytes 2-4/99999999999999999999", "/", "bytes 4-2/10", "bytes */10"},
+				"Content-Range":         {"", "bytes", "bytes 2-4", "bytes 2-4/x", "bytes 2-4/-1", "bytes 2-4/99999999999999999999", "/", "bytes 4-2/10", "bytes */10", "bytes 2-4/*", "2-4/*", "bytes/*", "/*", "*/*", "bytes  /*", "bytes 2-/*"},
 				"Docker-Content-Digest": {"", "sha256:zz", "md5:abc", "sha256:" + strings.Repeat("0", 64), "sha512:" + strings.Repeat("a", 128), ":", "sha256"},
 				"Link":                  {"", "<", "no brackets", "</v2/foo/tags/list?n=2&last=b", "<>; rel=\"next\"", "<::bad>", "</v2/foo/tags/list?n=2>; rel=\"next\"", "<http://registry.test/v2/foo/tags/list?last=zz>"},
 				"Content-Type":          {"", "application/json", "text/html", "application/problem+json", "application/vnd.acme.error+xml", "application/+", "application/x+y+z", "a/b; charset", ";;;", "application/json+"},
